@@ -41,6 +41,8 @@ Record Inv (s : st) : Prop := {
   H8 : forall a k, ahome (A s a) = HFast k -> k < nexts s /\ spc_ (Sb s k) = SFastT a;
   H9 : forall k a, k < nexts s -> spc_ (Sb s k) = SFastT a -> ahome (A s a) = HFast k;
   H10 : forall a, ahome (A s a) = HAwake <-> aawake (A s a) = true;
+  HF : forall k c, k < nexts s -> spc_ (Sb s k) = SFastT c -> afd (A s c) = sfd (Sb s k);
+  HS : forall g f c, Sel s g = SEvT f c -> afd (A s c) = f;
   J : forall a, inJ (apc (A s a)) = true -> avail s (A s a) ->
         flag s (afd (A s a)) = true \/ pend s (afd (A s a)) = true;
   K : forall f a, co s f = Some a -> flag s f = true ->
@@ -154,9 +156,9 @@ Qed.
 (* a coroutine in the hands of the selector *)
 Lemma sel_facts g f c : Sel s g = SEvT f c ->
   ahome (A s c) = HSel g /\ apc (A s c) = Susp /\ aawake (A s c) = false /\ (forall f', co s f' <> Some c) /\
-  busy s (afd (A s c)) = Some c.
+  busy s (afd (A s c)) = Some c /\ afd (A s c) = f.
 Proof.
-  intros E. pose proof (H7 _ I _ _ _ E) as Hh.
+  intros E. pose proof (H7 _ I _ _ _ E) as Hh. pose proof (HS _ I _ _ _ E) as Hfd.
   assert (Hs : apc (A s c) = Susp) by (apply home_susp; rewrite Hh; discriminate).
   repeat split; auto; try (apply susp_busy; exact Hs).
   - destruct (aawake (A s c)) eqn:W; [|reflexivity]. apply (H10 _ I) in W. congruence.
@@ -165,9 +167,9 @@ Qed.
 (* a coroutine in the hands of fast_schedule *)
 Lemma fast_facts k c : k < nexts s -> spc_ (Sb s k) = SFastT c ->
   ahome (A s c) = HFast k /\ apc (A s c) = Susp /\ aawake (A s c) = false /\ (forall f', co s f' <> Some c) /\
-  busy s (afd (A s c)) = Some c.
+  busy s (afd (A s c)) = Some c /\ afd (A s c) = sfd (Sb s k).
 Proof.
-  intros L E. pose proof (H9 _ I _ _ L E) as Hh.
+  intros L E. pose proof (H9 _ I _ _ L E) as Hh. pose proof (HF _ I _ _ L E) as Hfd.
   assert (Hs : apc (A s c) = Susp) by (apply home_susp; rewrite Hh; discriminate).
   repeat split; auto; try (apply susp_busy; exact Hs).
   - destruct (aawake (A s c)) eqn:W; [|reflexivity]. apply (H10 _ I) in W. congruence.
@@ -205,3 +207,41 @@ Proof. intros Fa Fb E. pose proof (B1 _ I _ Fa). pose proof (B1 _ I _ Fb). congr
 End Facts.
 
 End Inv.
+
+(* ---- tactics of the preservation proofs (IoPres.v, IoPres2.v) ------------------------------------------------- *)
+Ltac opn := unfold finish, die, wake, wake_to, set_pend, disarm in *; simp.
+Ltac brk := repeat match goal with
+  | H : _ /\ _ |- _ => destruct H
+  | H : exists _, _ |- _ => destruct H
+  end.
+Ltac dm := repeat match goal with
+  | |- context [match ?x with Some _ => _ | None => _ end] => destruct x eqn:?
+  end; simp.
+Ltac pose_new H := let T := type of H in lazymatch goal with | _ : T |- _ => fail | _ => pose proof H end.
+
+(* what the guards of the step tell about the pre-state, through the invariant *)
+Ltac facts_gen cap peer selof I :=
+  bools;
+  repeat match goal with
+  | E : co ?s ?f = Some ?c |- _ => pose_new (slot_facts cap peer selof s I f c E)
+  | E : Sel ?s ?g = SEvT ?f ?c |- _ => pose_new (sel_facts cap peer selof s I g f c E)
+  | L : ?k < nexts ?s, E : spc_ (Sb ?s ?k) = SFastT ?c |- _ => pose_new (fast_facts cap peer selof s I k c L E)
+  | L : ?k < nexts ?s, E : spc_ (Sb ?s ?k) = SArm |- _ => pose_new (sub_facts cap peer selof s I k L (or_introl E))
+  | L : ?k < nexts ?s, E : spc_ (Sb ?s ?k) = SStore |- _ => pose_new (sub_facts cap peer selof s I k L (or_intror E))
+  | E : aawake (A ?s ?a) = true |- _ => pose_new (awake_facts cap peer selof s I a E)
+  | E : apc (A ?s ?a) = ?p |- _ =>
+      lazymatch p with Susp => fail | _ => pose_new (home_none cap peer selof s I a ltac:(rewrite E; discriminate)) end
+  | E : apc (A ?s ?a) = ?p |- _ =>
+      lazymatch p with Idle => fail | Dead => fail | _ => pose_new (flight_busy cap peer selof s I a p E eq_refl) end
+  end; brk.
+
+Ltac rw_pc := repeat match goal with
+  | E : apc ?x = ?p, H : context [apc ?x] |- _ => lazymatch H with E => fail | _ => rewrite E in H end
+  end.
+Ltac rw_goal := repeat match goal with
+  | E : apc ?x = ?p |- context [apc ?x] => rewrite E
+  end; cbn [inflight inJ].
+Ltac fin := rw_pc; cbn [inflight inJ] in *; try discriminate; try congruence; try tauto; try lia; eauto.
+
+Ltac dj := repeat match goal with H : _ \/ _ |- _ => destruct H end; try discriminate; try congruence.
+
